@@ -41,6 +41,11 @@ TIERS = {
 # PYTHONHASHSEED values and compares the shipped final values (the "different processes" clause)
 CROSS_PROCESS = {"quick": 64, "thorough": 320}
 LEVEL = {"C01": "exploration", "C16": "exploration", "C14": "fault_enumeration", "C15": "fault_enumeration", "C05": "exploration", "C13": "exploration", "C18": "exploration", "C19": "exploration", "C07": "exploration", "C08": "exploration"}
+# per-tier monitor options (deeper bounds in the thorough tier)
+TIER_OPTS = {
+    "C14": {"thorough": {"history_ops": 30}},
+    "C08": {"thorough": {"sweep_inputs_start": 12, "sweep_inputs_end": 40}},
+}
 WORKER_TIMEOUT = {"quick": 2400, "thorough": 6 * 3600}
 
 
@@ -245,7 +250,7 @@ def check(prop, tier, seed, runs=None, nops=None, workers=None, opts=None):
     R, N, W = TIERS[prop][tier]
     R, N, W = runs or R, nops or N, workers or W
     findings = load_findings(prop)
-    opts = dict(opts or {})
+    opts = dict(TIER_OPTS.get(prop, {}).get(tier, {}), **(opts or {}))
     # an open finding may name things the monitor has to step over in order to go on exploring (it is still
     # reported as KNOWN-FINDING, from its witness, which is replayed without this tolerance)
     tol = sorted({lab for f in findings if f.get("status") == "open" for lab in f.get("match", {}).get("tolerate_leaf_labels", [])})
